@@ -16,32 +16,42 @@ Proof.
     intro E; injection E as <- _; reflexivity.
 Qed.
 
-(* the secret's bytes are inside a ciphertext term, never raw on the wire *)
+(* the secret's bytes are inside a ciphertext term, never raw on the wire; the stream is not inside
+   another secret section ([before_secret s = false]: the toggle marker is clear, as it is
+   whenever prepare/restore calls are paired) *)
 Lemma secret_is_sealed s d s' e fs k :
-  key s = Some k -> enc_ctr s <= CounterGuard ->
+  key s = Some k -> enc_ctr s <= CounterGuard -> before_secret s = false ->
   run_sop s (OSecret d) = (s', e, fs) ->
   encrypted s' = encrypted s /\
   (e = 0 -> exists f ivo a, fs = [f] /\ f_body f = Ct ivo (seal k (nonce_of (enc_iv s) (enc_ctr s)) a (d ++ [x00]))) /\
   (e <> 0 -> fs = []).
 Proof.
-  intros Hk Hle Hr. cbn [run_sop] in Hr.
+  intros Hk Hle Hbs Hr. cbn [run_sop] in Hr.
   set (t := prepare_secret s) in *.
-  assert (Hkt : key t = Some k) by exact Hk.
-  assert (Het : encrypted t = true) by (unfold t, prepare_secret; cbn; rewrite Hk; reflexivity).
-  assert (Hct : enc_ctr t = enc_ctr s) by reflexivity.
-  assert (Hit : enc_iv t = enc_iv s) by reflexivity.
+  destruct (prepare_secret_same s) as [Pk [Piv Pc]]. fold t in Pk, Piv, Pc.
+  assert (Hkt : key t = Some k) by congruence.
+  assert (Het : encrypted t = true) by (apply (prepare_secret_enc s k Hk)).
+  assert (Hbt : before_secret t = negb (encrypted s)) by (apply (prepare_secret_marker s k Hk Hbs)).
+  (* after the frame, restore switches encryption off exactly when prepare switched it on *)
+  assert (Hrest : forall t1 r, send_frame t (d ++ [x00]) EndFlagComplete = (t1, r) ->
+                    encrypted (restore_secret t1) = encrypted s).
+  { intros t1 r Es. unfold restore_secret. rewrite (send_frame_before_secret _ _ _ _ _ Es), Hbt.
+    assert (He1 : encrypted t1 = true).
+    { revert Es. unfold send_frame. destruct (MaxMessageSize <? lenN (d ++ [x00])); [intro E; injection E as <- _; exact Het|].
+      rewrite Hkt, Het. destruct (enc_ctr t =? CounterGuard); cbv zeta; intro E; injection E as <- _; proj_simpl; exact Het. }
+    destruct (encrypted s); cbn [negb]; [exact He1|reflexivity]. }
   destruct (send_frame t (d ++ [x00]) EndFlagComplete) as [t1 [f|x]] eqn:Es; injection Hr as <- <- <-.
-  - assert (Hlt : enc_ctr t <= CounterGuard) by (rewrite Hct; exact Hle).
+  - assert (Hlt : enc_ctr t <= CounterGuard) by (rewrite Pc; exact Hle).
     destruct (send_frame_enc _ _ _ _ _ _ Hkt Het Hlt Es) as [_ [_ [_ [_ [_ [_ Hb]]]]]].
-    split; [unfold restore_secret; proj_simpl; rewrite (send_frame_before_secret _ _ _ _ _ Es); reflexivity|].
+    split; [exact (Hrest _ _ eq_refl)|].
     split; [|intro H; contradiction H; reflexivity].
-    intros _. rewrite Hct, Hit in Hb. eexists f, _, _. split; [reflexivity|exact Hb].
-  - split; [unfold restore_secret; proj_simpl; rewrite (send_frame_before_secret _ _ _ _ _ Es); reflexivity|].
+    intros _. rewrite Pc, Piv in Hb. eexists f, _, _. split; [reflexivity|exact Hb].
+  - split; [exact (Hrest _ _ eq_refl)|].
     split; [discriminate|reflexivity].
 Qed.
 
 Lemma secret_noop_without_key s : key s = None -> secret_is_noop s = true /\ encrypted (prepare_secret s) = encrypted s.
-Proof. intro H. unfold secret_is_noop, prepare_secret. rewrite H. cbn. split; reflexivity. Qed.
+Proof. intro H. unfold secret_is_noop, prepare_secret. rewrite H. split; reflexivity. Qed.
 
 Lemma secret_noop_when_encrypting s : encrypted s = true -> secret_is_noop s = true.
 Proof. intro H. unfold secret_is_noop. destruct (key s); [exact H|reflexivity]. Qed.
